@@ -131,6 +131,7 @@ type row struct {
 	Key      string `json:"key"`
 	Status   string `json:"status"`
 	Failures int    `json:"failures"`
+	Due      bool   `json:"due"`
 }
 
 type mgrState struct {
@@ -150,11 +151,13 @@ type mgr struct {
 	prefix string
 	exec   *scriptExec
 	cs     *countingStore
+
+	retryInterval time.Duration
 }
 
 const (
-	wbQuery = "SELECT namespace, name, status, failures FROM writeback_task"
-	trQuery = "SELECT tag, destination, status, failures FROM replicate_tag_task"
+	wbQuery = "SELECT namespace, name, status, failures, created_at, last_attempt, delay FROM writeback_task"
+	trQuery = "SELECT tag, destination, status, failures, created_at, last_attempt, delay FROM replicate_tag_task"
 )
 
 func (g *mgr) state() mgrState {
@@ -179,11 +182,18 @@ func (g *mgr) state() mgrState {
 	for rs.Next() {
 		var a, b, status string
 		var failures int
-		if err := rs.Scan(&a, &b, &status, &failures); err != nil {
+		var created, last time.Time
+		var delay int64
+		if err := rs.Scan(&a, &b, &status, &failures, &created, &last, &delay); err != nil {
 			st.Err = err.Error()
 			return st
 		}
-		st.Rows = append(st.Rows, row{g.prefix + "|" + a + "|" + b, status, failures})
+		// due = what the manager's poller requires of a failed task (Ready() and the
+		// retry interval since the last attempt), with 2 s to spare on both (the
+		// stored timestamps have second resolution)
+		now := time.Now()
+		due := now.Sub(created) >= time.Duration(delay)+2*time.Second && now.Sub(last) > g.retryInterval+2*time.Second
+		st.Rows = append(st.Rows, row{g.prefix + "|" + a + "|" + b, status, failures, due})
 	}
 	sort.Slice(st.Rows, func(i, j int) bool { return st.Rows[i].Key < st.Rows[j].Key })
 	return st
@@ -197,6 +207,7 @@ type request struct {
 	DelayMs int    `json:"delay_ms"`
 	Open    bool   `json:"open"`
 	Pct     int    `json:"pct"`
+	N       int    `json:"n"`
 }
 
 func main() {
@@ -270,12 +281,12 @@ func main() {
 	wbCS := &countingStore{Store: wbStore}
 	wbm, err := persistedretry.NewManager(cfg, tally.NoopScope, wbCS, wbExec)
 	must(err, "writeback manager")
-	wb := &mgr{wbm, db, wbQuery, "wb", wbExec, wbCS}
+	wb := &mgr{wbm, db, wbQuery, "wb", wbExec, wbCS, cfg.RetryInterval}
 	wbStart := wb.state() // immediately after the constructor returned
 	trCS := &countingStore{Store: trStore}
 	trm, err := persistedretry.NewManager(cfg, tally.NoopScope, trCS, trExec)
 	must(err, "tagreplication manager")
-	tr := &mgr{trm, db, trQuery, "tr", trExec, trCS}
+	tr := &mgr{trm, db, trQuery, "tr", trExec, trCS, cfg.RetryInterval}
 	trStart := tr.state()
 
 	out := bufio.NewWriter(os.Stdout)
@@ -311,6 +322,27 @@ func main() {
 			} else {
 				reply(map[string]interface{}{"ok": true})
 			}
+		case "addmany":
+			// n Adds in a row (large backlogs): wb -> (a, "<b>-<i>"), tr -> ("<a>:<i>", b)
+			var failed []int
+			firstErr := ""
+			for i := 0; i < rq.N; i++ {
+				var err error
+				if rq.Kind == "wb" {
+					err = wbm.Add(writeback.NewTask(rq.A, fmt.Sprintf("%s-%d", rq.B, i), 0))
+				} else {
+					d, derr := core.NewSHA256DigestFromHex(strings.Repeat("ab", 32))
+					must(derr, "digest")
+					err = trm.Add(tagreplication.NewTask(fmt.Sprintf("%s:%d", rq.A, i), d, core.DigestList{d}, rq.B, 0))
+				}
+				if err != nil {
+					failed = append(failed, i)
+					if firstErr == "" {
+						firstErr = err.Error()
+					}
+				}
+			}
+			reply(map[string]interface{}{"ok": true, "failed": failed, "err": firstErr})
 		case "gate":
 			for _, e := range []*scriptExec{wbExec, trExec} {
 				e.mu.Lock()
